@@ -93,6 +93,9 @@ func (c *PanConfig) getDevName() string {
 }
 
 func (c *PanConfig) checkDeviceName(expected string) error {
+	if c.Devices == nil || len(c.Devices.Entries) == 0 {
+		return fmt.Errorf("Missing <devices><entry> in configuration of device")
+	}
 	name := c.getDevName()
 	if name != expected {
 		return fmt.Errorf("Wrong device name %q, expected %q", name, expected)
